@@ -162,8 +162,12 @@ def _instrument_stateful():
     from sim import asyncexc
     import coba.pipes.filters as PF
     import coba.environments.filters as EF
-    fns = [PF.Cache.filter, PF.Cache._next_slice, getattr(PF.Cache, "_filter", None), EF.Cache.filter, EF.Densify.filter, EF.EmptyCheck.filter, EF.Chunk.filter, EF.Shuffle.filter]
-    asyncexc.instrument([f for f in fns if hasattr(f, "__code__")])
+    fns = [PF.Cache.filter, PF.Cache._next_slice, getattr(PF.Cache, "_filter", None), EF.Cache.filter, EF.Densify.filter, EF.EmptyCheck.filter, EF.Chunk.filter, EF.Shuffle.filter,
+           # ... and the filters that wrap a computation in try/except with a fall-back value (a Ctrl-C must come out of them, not be replaced by the fall-back)
+           EF.Impute.filter, EF.Impute._get_imputation, EF.Where.filter, getattr(EF.Where, "_context_len", None), EF.Unbatch.filter, getattr(EF.Unbatch, "_unbatch", None),
+           EF.Batch.filter, EF.Scale.filter, EF.Noise.filter, EF.Sort.filter]
+    import coba.utilities as U
+    asyncexc.instrument([f for f in fns + [U.try_else, U.peek_first] if hasattr(f, "__code__")])
 
 
 class _Any:
